@@ -227,8 +227,9 @@ func bbox(cs []oracle.Contour) (x0, y0, x1, y1 float64) {
 }
 
 // refOutline: the region the library's rasterizer paints for the stroke of draw d (rasterizer.go RenderPath).
-func refOutline(h *Header, d Draw) *outline {
-	key := fmt.Sprintf("%d/%d/%d/%d/%d/%d/%d/%d", d.Shape, d.View, d.Cs, d.Width, d.Cap, d.Join, d.Dash, d.Off)
+// unscaled = true: the same with the dash lengths NOT multiplied by the width (the deviation pattern of the explicit-outline fallbacks).
+func refOutline(h *Header, d Draw, unscaled bool) *outline {
+	key := fmt.Sprintf("%d/%d/%d/%d/%d/%d/%d/%d/%v", d.Shape, d.View, d.Cs, d.Width, d.Cap, d.Join, d.Dash, d.Off, unscaled)
 	if v, ok := outlineCache.Load(key); ok {
 		return v.(*outline)
 	}
@@ -236,6 +237,9 @@ func refOutline(h *Header, d Draw) *outline {
 	w := float64(d.Width)
 	if len(h.Dashes[d.Dash]) > 0 {
 		off, ds := canvas.ScaleDash(w, float64(d.Off), h.Dashes[d.Dash])
+		if unscaled {
+			off, ds = float64(d.Off), append([]float64(nil), h.Dashes[d.Dash]...)
+		}
 		p = p.Dash(off, ds...)
 	}
 	p = p.Stroke(w, cappers[d.Cap], joiner(h, d.Join), canvas.Tolerance)
@@ -252,8 +256,8 @@ func refOutline(h *Header, d Draw) *outline {
 
 // regionMatches: draws (1-based) whose reference stroke region equals the region the contours obs fill, under the
 // non-zero rule (o) and under the even-odd rule (oe). Decided at sample points farther than 0.03 mm from both boundaries.
-func regionMatches(h *Header, prog []Draw, obs []oracle.Contour) (o, oe []int) {
-	o, oe = []int{}, []int{}
+func regionMatches(h *Header, prog []Draw, obs []oracle.Contour) (o, oe, ou, oue []int) {
+	o, oe, ou, oue = []int{}, []int{}, []int{}, []int{}
 	if len(obs) == 0 {
 		return
 	}
@@ -262,41 +266,55 @@ func regionMatches(h *Header, prog []Draw, obs []oracle.Contour) (o, oe []int) {
 		if d.Stroke == "none" {
 			continue
 		}
-		ref := refOutline(h, d)
-		if len(ref.cs) == 0 {
-			continue
-		}
-		if math.Abs(bx0-ref.x0) > 0.1 || math.Abs(by0-ref.y0) > 0.1 || math.Abs(bx1-ref.x1) > 0.1 || math.Abs(by1-ref.y1) > 0.1 {
-			continue
-		}
-		const n = 30
-		okNZ, okEO, used := true, true, 0
-		for iy := 0; iy < n && (okNZ || okEO); iy++ {
-			for ix := 0; ix < n; ix++ {
-				p := oracle.Pt{X: bx0 - 0.2 + (bx1-bx0+0.4)*(float64(ix)+0.37)/n, Y: by0 - 0.2 + (by1-by0+0.4)*(float64(iy)+0.61)/n}
-				if oracle.Dist(obs, p, true) < 0.03 || oracle.Dist(ref.cs, p, true) < 0.03 {
-					continue
-				}
-				used++
-				want := oracle.Winding(ref.cs, p) != 0
-				w := oracle.Winding(obs, p)
-				if (w != 0) != want {
-					okNZ = false
-				}
-				if (w%2 != 0) != want {
-					okEO = false
-				}
-			}
-		}
-		if used < 60 {
-			continue
-		}
-		if okNZ {
+		nz, eo := sameRegion(refOutline(h, d, false), obs, bx0, by0, bx1, by1)
+		if nz {
 			o = append(o, j+1)
 		}
-		if okEO {
+		if eo {
 			oe = append(oe, j+1)
 		}
+		if len(h.Dashes[d.Dash]) > 0 && d.Width != 1 {
+			nz2, eo2 := sameRegion(refOutline(h, d, true), obs, bx0, by0, bx1, by1)
+			if nz2 {
+				ou = append(ou, j+1)
+			}
+			if eo2 {
+				oue = append(oue, j+1)
+			}
+		}
+	}
+	return
+}
+
+func sameRegion(ref *outline, obs []oracle.Contour, bx0, by0, bx1, by1 float64) (okNZ, okEO bool) {
+	if len(ref.cs) == 0 {
+		return false, false
+	}
+	if math.Abs(bx0-ref.x0) > 0.1 || math.Abs(by0-ref.y0) > 0.1 || math.Abs(bx1-ref.x1) > 0.1 || math.Abs(by1-ref.y1) > 0.1 {
+		return false, false
+	}
+	const n = 30
+	okNZ, okEO = true, true
+	used := 0
+	for iy := 0; iy < n && (okNZ || okEO); iy++ {
+		for ix := 0; ix < n; ix++ {
+			p := oracle.Pt{X: bx0 - 0.2 + (bx1-bx0+0.4)*(float64(ix)+0.37)/n, Y: by0 - 0.2 + (by1-by0+0.4)*(float64(iy)+0.61)/n}
+			if oracle.Dist(obs, p, true) < 0.03 || oracle.Dist(ref.cs, p, true) < 0.03 {
+				continue
+			}
+			used++
+			want := oracle.Winding(ref.cs, p) != 0
+			w := oracle.Winding(obs, p)
+			if (w != 0) != want {
+				okNZ = false
+			}
+			if (w%2 != 0) != want {
+				okEO = false
+			}
+		}
+	}
+	if used < 60 {
+		return false, false
 	}
 	return
 }
@@ -332,7 +350,7 @@ func opEvent(op string, a []int, g int) ev {
 	if a == nil {
 		a = []int{}
 	}
-	return ev{"op": op, "a": a, "g": g, "s": "", "o": []int{}, "oe": []int{}, "ph": 0, "u": 0}
+	return ev{"op": op, "a": a, "g": g, "s": "", "o": []int{}, "oe": []int{}, "ou": []int{}, "oue": []int{}, "ph": 0, "u": 0}
 }
 
 func pt(f []float64, i int) oracle.Pt { return oracle.Pt{X: f[i], Y: f[i+1]} }
@@ -433,7 +451,7 @@ func EventsPDF(h *Header, id int, prog []Draw, file []byte) ([]ev, error) {
 					geo.Close()
 				}
 			case "f", "F", "f*", "B", "B*", "b", "b*":
-				e["o"], e["oe"] = regionMatches(h, prog, geo.Subs)
+				e["o"], e["oe"], e["ou"], e["oue"] = regionMatches(h, prog, geo.Subs)
 				geo.Reset()
 			case "S", "s", "n", "S*", "s*":
 				geo.Reset()
@@ -546,7 +564,7 @@ func EventsPS(h *Header, id int, prog []Draw, file []byte) ([]ev, error) {
 				}
 				e["a"], e["g"] = []int{}, 1
 			case "fill", "eofill":
-				e["o"], e["oe"] = regionMatches(h, prog, geo.Subs)
+				e["o"], e["oe"], e["ou"], e["oue"] = regionMatches(h, prog, geo.Subs)
 				geo.Reset()
 			case "stroke":
 				geo.Reset()
@@ -592,7 +610,7 @@ func EventsSVG(h *Header, id int, prog []Draw, file []byte) ([]ev, error) {
 			}
 			out = append(out, ev{"op": "svg", "a": a, "s": uw, "vb": vb, "g": g})
 		case "path", "image":
-			e := ev{"op": el.Tag, "pr": el.Props, "d": el.D, "tf": el.Tf, "tm": []int{1, 0, 0, 1, 0, 0}, "tmg": 0, "o": []int{}, "oe": []int{}, "a": []int{}, "g": 1, "s": ""}
+			e := ev{"op": el.Tag, "pr": el.Props, "d": el.D, "tf": el.Tf, "tm": []int{1, 0, 0, 1, 0, 0}, "tmg": 0, "o": []int{}, "oe": []int{}, "ou": []int{}, "oue": []int{}, "a": []int{}, "g": 1, "s": ""}
 			if el.Props == nil {
 				e["pr"] = []oracle.GSProp{}
 			}
@@ -623,7 +641,7 @@ func EventsSVG(h *Header, id int, prog []Draw, file []byte) ([]ev, error) {
 					geo.Concat(tm)
 				}
 				svgGeo(geo, el.D)
-				e["o"], e["oe"] = regionMatches(h, prog, geo.Subs)
+				e["o"], e["oe"], e["ou"], e["oue"] = regionMatches(h, prog, geo.Subs)
 			}
 			out = append(out, e)
 		default:
